@@ -94,7 +94,8 @@ class Peer:
         self.rig.stop()
 
 
-USER_CALLBACKS = [(99, 1), (1, 65), (13, 1), (3, 17), (127, 255)]
+# (1, 3) and (2, 17): functions the GEM handlers answer themselves - a callback registered by the user takes precedence, and it fails
+USER_CALLBACKS = [(99, 1), (1, 65), (13, 1), (3, 17), (127, 255), (1, 3), (2, 17)]
 
 
 def run_history(host, msgs):
@@ -174,7 +175,8 @@ def evaluate(lits, prefix, shard=400):
     return bad, {"skipped_unmodelled": skipped, "spec_checked": checked, "eval_errors": errors, "observed": len(lits)}
 
 
-SPEC_CODES = {31: "a primary with W-bit was not answered by exactly one message (secondary function+1, SxF0 or S9F5)", 33: "a reply carried other system bytes than the request",
+SPEC_CODES = {35: "a registered callback that fails was not answered with exactly the stream's abort SxF0 (S9F5 where the catalogue has no abort for the stream)",
+              31: "a primary with W-bit was not answered by exactly one message (secondary function+1, SxF0 or S9F5)", 33: "a reply carried other system bytes than the request",
               34: "S9F5 does not carry the header of the offending message", 36: "a primary without W-bit, handled without error, was answered with the callback's result",
               37: "a primary without W-bit was answered with S9F5 / several messages"}
 MODEL_CODES = {12: "the replies are none of those the model derives from the callback's source"}
